@@ -37,7 +37,7 @@ fn issuer_steps() -> Vec<J> {
     ]
 }
 
-fn cases_issuer(rng: &mut Rng, sink: &mut dyn FnMut(J) -> bool) {
+pub fn cases_issuer(rng: &mut Rng, sink: &mut dyn FnMut(J) -> bool) {
     let steps = issuer_steps();
     let algs = ["ES256", "EdDSA", "HS256"];
     let mut n = 0usize;
@@ -82,7 +82,7 @@ fn cases_issuer_random(rng: &mut Rng, sink: &mut dyn FnMut(J) -> bool) {
     }
 }
 
-fn check_issuer(case: &J) -> Verdict {
+pub fn check_issuer(case: &J) -> Verdict {
     let alg = case["alg"].as_str().unwrap_or("ES256");
     let Some(steps) = case["steps"].as_array() else { return Verdict::Trivial };
     let mut issuer = sut::new_issuer(alg);
